@@ -275,3 +275,9 @@ package types
 //@   loop 4: invariant [maps-from-old] uses(range, wf) rmMapsNotInvented(i)
 //@   loop 6: invariant [plain-means-absent] uses() tag == "" && referrer == "" ==> forall k: int :: 0 <= k && k <= rangeindex ==> i.Manifests[k].Digest != d.Digest
 //@   loop 6: invariant [none-compatible] uses() forall k: int :: 0 <= k && k <= rangeindex ==> !(i.Manifests[k].Digest == d.Digest && addCompatible(i.Manifests[k], tag, referrer))
+
+//@ -- ------------------------------------------------------------------
+//@ -- error documents (C15): writing the body never changes a status that was already sent
+//@ func ErrRespJSON(w io.Writer, errList []ErrorInfo) (err error)
+//@   props C15
+//@   ensures [status] status(w) == (old(status(w)) == 0 ? 200 : old(status(w)))
